@@ -17,16 +17,17 @@ def report_cases(n, keybytime=False):
     return r, cases
 
 BASE = "2026-01-02T03:04:%02d.%03d000000Z"
-def to_audit(t, n, leaf_sources):
+ZERO = "0001-01-01T00:00:00Z"
+def to_audit(t, n, leaf_sources, zero_real=False):
     is_src = leaf_sources and not t["ups"] and t["start"] == 0 and t["id"] != n
     rec = dict(ID="id%02dx%s" % (t["id"], "q" * 14), ProcessName="" if is_src else "proc_%d" % t["id"],
                Command="" if is_src else "tool%d --in x_%d > out_%d.txt" % (t["id"], t["id"], t["id"]),
                Params={} if is_src else {"k%d" % t["id"]: "v%d" % t["id"]}, Tags={} if is_src else {"tag%d" % t["id"]: "t%d" % t["id"]},
-               StartTime="0001-01-01T00:00:00Z" if is_src else BASE % (10 + t["start"], 0),
+               StartTime=ZERO if (is_src or (zero_real and t["start"] == 0)) else BASE % (10 + t["start"], 0),
                FinishTime="0001-01-01T00:00:00Z" if is_src else BASE % (10 + t["finish"], 0),
                ExecTimeNS=-1 if is_src else (t["finish"] - t["start"]) * 10**9,
                OutFiles={} if is_src else {"out": "out_%d.txt" % t["id"]},
-               Upstream={"out_%d.txt" % u["id"]: to_audit(u, n, leaf_sources) for u in t["ups"]})
+               Upstream={"out_%d.txt" % u["id"]: to_audit(u, n, leaf_sources, zero_real) for u in t["ups"]})
     return rec
 
 def collect(rec, acc):
@@ -70,8 +71,9 @@ def check_C20(tier):
     def one(c):
         d = scratch("c20")
         try:
-            leaf_sources = rng.random() < 0.5
-            root = to_audit(c["tree"], c["n"], leaf_sources)
+            # three renderings of model time 0: an ordinary time stamp, source-file placeholders, or tasks whose start time is Go's zero time
+            mode = rng.choice(["plain", "sources", "zero", "zero"])
+            root = to_audit(c["tree"], c["n"], mode == "sources", mode == "zero")
             json.dump(root, open(os.path.join(d, "root.txt.audit.json"), "w"), indent=4)
             recs = collect(root, {})
             outs = {fmt: convert(cli, d, fmt) for fmt in ("html", "tex", "sh")}
@@ -151,5 +153,14 @@ def check_C20(tier):
     for p in w3["procs"]:
         if p["kind"] == "cmd": p["outdir"] = "./"
     recreate(w3, "diamond: shared source reached through two paths")
+    # commands that are fine under the options scipipe runs them with (plain bash -c): a pipeline whose first stage exits non-zero,
+    # a ';' list with a failing earlier command, an unset variable
+    w4 = dict(name="RC4", max=2, bufsize=2,
+              procs=[zoo.src("s", ["1", "2"]),
+                     dict(name="g", kind="cmd", ins=["in"], outs=["out"], outpaths={"out": "./g_{i:in|basename}"}, arg="grep zebra-not-there {i:in} | wc -l > {o:out}"),
+                     dict(name="h", kind="cmd", ins=["in"], outs=["out"], outpaths={"out": "./h_{i:in|basename}"},
+                          arg="false; echo \"v=${VERIF_SURELY_UNSET}.\" > {o:out}; cat {i:in} >> {o:out}")],
+              edges=[zoo.E("s.out", "g.in"), zoo.E("g.out", "h.in")])
+    recreate(w4, "pipeline with a failing first stage, ';' list with a failing command, unset variable")
     chk.sample(dict(kind="audit-trees", exported_by_tlc=len(cases), converted=len(pick), example=pick[0]["tree"] if pick else None))
     return chk.finish()
